@@ -458,7 +458,10 @@ def polar(
         **kwargs,
     )
     return PolarHistogram.from_calculate_frequencies(
-        data, binnings=bin_schemas, weights=weights, **kwargs
+        data,
+        binnings=bin_schemas,
+        weights=extract_weights(weights, array_mask=array_mask),
+        **kwargs,
     )
 
 
